@@ -33,5 +33,6 @@ fn main() {
         rep.write();
         return;
     }
+    vh::util::quiesce_reloaders();
     rep.finish()
 }
